@@ -628,12 +628,11 @@ def value_expr(path: Path, index: int, expr, depth: int = 12, keep_clock: bool =
             # above); `a, b = x, y` was split element-wise by the interpreter
             if keep_clock and fn is not None and is_current_time(value, store.fn):
                 return node
-            if isinstance(value, ast.Attribute) and _dotted_text(value):
-                # an alias: the object the attribute held when the alias was taken (the
-                # position goes to ``trace``), however that object is mutated since
-                pass
-            elif _mutated_between(path, pos, index, node.id):
+            if _makes_container(value) and _mutated_between(path, pos, index, node.id):
                 return node  # a container filled in place: not its initial literal
+            # (anything else names an object made elsewhere: the local is an alias of what
+            # the expression gave at that position -- which goes to ``trace`` -- however
+            # that object is mutated since)
             if trace is not None:
                 trace.append(pos)  # the value was read at this position
             result = value_expr(path, pos, value, depth - 1, keep_clock, keep, trace=trace)
@@ -996,6 +995,17 @@ def _loop_element(path: Path, pos: int, store: Event, depth, keep_clock, keep, t
 _MUTATORS = frozenset((
     'append', 'appendleft', 'pop', 'popleft', 'popitem', 'remove', 'clear', 'add', 'discard',
     'insert', 'extend', 'extendleft', 'update', 'setdefault', 'sort', 'reverse', 'rotate'))
+
+
+def _makes_container(value) -> bool:
+    """the expression creates a new container (whose later content it does not describe)"""
+    if isinstance(value, (ast.List, ast.Dict, ast.Set, ast.ListComp, ast.SetComp,
+                          ast.DictComp)):
+        return True
+    return isinstance(value, ast.Call) and isinstance(value.func, (ast.Name, ast.Attribute)) \
+        and ast.unparse(value.func).split('.')[-1] in (
+            'list', 'dict', 'set', 'deque', 'SortedList', 'SortedKeyList', 'SortedDict',
+            'OrderedDict', 'defaultdict', 'WeakSet', 'bytearray')
 
 
 def _mutated_between(path: Path, start: int, stop: int, name: str) -> bool:
